@@ -157,13 +157,15 @@ func genC15(d *RunDesc, tier string) {
 	if wl.chance(1, 2) {
 		length = wl.between(5, 40)
 	}
+	wideMode := false
+	var widePool []poolInput
 	if wl.chance(1, 8) {
 		// a "wide" history: many distinct inputs of one or two kinds in one process,
 		// so that a bounded cache (eviction, resize, generation counters) is driven
 		// past its capacity; siblings of earlier inputs keep recurring
 		wide := maxLen
 		if wide < 900 && wl.chance(1, 2) {
-			wide = 900 // enough distinct inputs to overflow a cache of a few hundred entries
+			wide = 900
 		}
 		length = wl.between(wide/2, wide)
 		kinds := []int{wl.intn(NKinds), wl.intn(NKinds)}
@@ -171,6 +173,17 @@ func genC15(d *RunDesc, tier string) {
 			k := pick(wl, kinds)
 			v, _ := genValidVector(wl, k)
 			pool = append(pool, poolInput{k, false, v, 0})
+		}
+		if wl.chance(1, 3) {
+			// ... and sometimes really wide: a thousand or so distinct inputs, each
+			// decoded and scored once, with early objects re-queried in between
+			wideMode = true
+			length = wl.between(1500, 3500)
+			for i := wl.between(400, 1400); i > 0; i-- {
+				k := pick(wl, kinds)
+				v, _ := genValidVector(wl, k)
+				widePool = append(widePool, poolInput{k, false, v, 0})
+			}
 		}
 	}
 	var ops []Op
@@ -190,6 +203,16 @@ func genC15(d *RunDesc, tier string) {
 			continue
 		}
 		c := wl.intn(100)
+		if wideMode && len(widePool) > 0 && c < 55 {
+			// next fresh input: decode it and ask for everything once
+			in := widePool[len(widePool)-1]
+			widePool = widePool[:len(widePool)-1]
+			ops = append(ops, Op{K: "dec", Kind: in.kind, NilRecv: in.nilrecv, Vec: in.vec, Dst: slot})
+			ops = append(ops, Op{K: "obs", Obj: &Ref{I: slot}, Obs: pick(wl, []string{"all", "Score", "Severity", "Encode"})})
+			live = append(live, slot)
+			slot++
+			continue
+		}
 		switch {
 		case c < 22 || len(live) == 0:
 			in := pick(wl, pool)
